@@ -280,6 +280,8 @@ BROKER_TRUSTED = [
     "sequence of events in the order the broker dequeues them; unbounded per-connection send queues whose only failure is "
     "'connection task gone'; tokio/futures scheduling is replaced by the harness executor",
     "the random choice of the connection asked for introspection is pinned by registering each type on at most one connection",
+    "SerialMap::insert with 2^32 entries (the implementation does not return, the model hands out a serial in use): the "
+    "reachable-state theorems of C02 assume fewer than 2^32 pending calls",
 ]
 
 
